@@ -1,4 +1,7 @@
-(* Correspondence glue for C20.  Input: (addr bytes, port int).  Output:
+(* Correspondence glue for C20.  Input: (addr bytes, port int, excluded?).  An
+   address with white space at either end is none of the address forms the property
+   speaks about: the harness flags it and both sides answer the constant (-1).
+   Otherwise the output is:
    [ ensurePort(addr, port); SplitHostPort of it; SplitHostPort(addr);
      NewClientTransport(addr); NewComponentTransport(addr); NewChecker(addr, "") ]. *)
 From Coq Require Import List ZArith NArith Bool.
@@ -19,7 +22,7 @@ Definition split_sx (r : split_res) : sx :=
 Definition transport_sx (t : transport) : sx :=
   match t with
   | Tcp a => SL [SZ 0; SS a; split_sx (split_host_port a)]
-  | WebSocket a => SL [SZ 1; SS a; SB (ws_is_secure a)]
+  | WebSocket a => SL [SZ 1; SS a]
   | NotSupported => SL [SZ 2]
   end.
 
@@ -30,14 +33,15 @@ Definition checker_sx (r : option (str * str)) : sx :=
   | Some (full, h) => SL [SZ 0; SS full; SS h; split_sx (split_host_port full)]
   end.
 
-Definition dec_input (x : sx) : option (str * Z) :=
+Definition dec_input (x : sx) : option (str * Z * bool) :=
   match x with
-  | SL [a; p] => do addr <- as_s a; do port <- as_z p; Some (addr, port)
+  | SL [a; p; e] => do addr <- as_s a; do port <- as_z p; do ex <- as_b e; Some (addr, port, ex)
   | _ => None
   end.
 
-Definition run_typed (inp : str * Z) : sx :=
-  let '(addr, port) := inp in
+Definition run_typed (inp : str * Z * bool) : sx :=
+  let '(addr, port, excluded) := inp in
+  if excluded then SL [SZ (-1)] else
   let ep := ensure_port addr port in
   SL [SS ep; split_sx (split_host_port ep); split_sx (split_host_port addr);
       transport_sx (client_transport addr); transport_sx (component_transport addr);
